@@ -74,7 +74,7 @@ def run_msm(spec, res):
     _, ident, k, g = spec
     d = h_C09.make_directed(ident, k, g)
     eng = sym.Engine(max_paths=64, conc_limit=32)
-    eng.query_timeout_ms = 120000
+    eng.query_timeout_ms = 240000
 
     def fn():
         p = d.build(eng)
